@@ -556,6 +556,108 @@ def translate_function(name, body):
     return out, tables
 
 
+
+# ---------------------------------------------------------------------------
+# dispatch logic of CSvmTrainer::train / LinearCSvmTrainer::train
+# ---------------------------------------------------------------------------
+def match_braces(text, i):
+    depth = 0
+    for j in range(i, len(text)):
+        if text[j] == "{": depth += 1
+        elif text[j] == "}":
+            depth -= 1
+            if depth == 0: return j + 1
+    raise Reject("unbalanced braces")
+
+
+def translate_dispatch(text):
+    """Parses `enum class McSvm`, the body of `CSvmTrainer::train(KernelClassifier&, LabeledData const&)` and of
+    `LinearCSvmTrainer::train` and renders the decision logic (which solver path a (class count, formulation)
+    pair takes) as Lean definitions.  The recognised shape is exactly:
+        if(classes == 2){ ... trainBinary(...); ... return; }
+        if(m_McSvmType == McSvm::OVA){ trainOVA(...); return; }
+        switch (m_McSvmType){ case McSvm::X: sumToZero = B; simplex = B; setupMcParametersF(nu,M, classes); break; ... }
+        ... if(simplex) solveMcSimplex(...) else solveMcBox(...)
+    anything else is rejected."""
+    m = re.search(r"enum\s+class\s+McSvm\s*\{([^}]*)\}", text)
+    if not m: raise Reject("enum class McSvm not found")
+    enum = [e.strip() for e in m.group(1).split(",") if e.strip()]
+    if not all(re.match(r"[A-Za-z]\w*$", e) for e in enum): raise Reject(f"enum McSvm: {enum}")
+    # --- kernel trainer
+    m = re.search(r"void\s+train\s*\(\s*KernelClassifier<InputType>\s*&\s*svm\s*,\s*LabeledData<InputType,\s*unsigned int>\s*const&\s*dataset\s*\)\s*\{", text)
+    if not m: raise Reject("CSvmTrainer::train not found")
+    body = text[m.end() - 1:match_braces(text, m.end() - 1)]
+    m2 = re.search(r"if\s*\(\s*classes\s*==\s*2\s*\)\s*\{", body)
+    if not m2: raise Reject("train: `if(classes == 2)` not found")
+    blk = body[m2.end() - 1:match_braces(body, m2.end() - 1)]
+    if not re.search(r"trainBinary\s*\(", blk) or not re.search(r"return\s*;\s*\}\s*$", blk):
+        raise Reject("train: the two-class block must call trainBinary and return")
+    if re.search(r"setupMcParameters|solveMc|trainOVA|switch", body[:m2.start()] + blk):
+        raise Reject("train: multi-class code reachable before/inside the two-class block")
+    rest = body[m2.end() - 1 + len(blk):]
+    m3 = re.match(r"\s*if\s*\(\s*m_McSvmType\s*==\s*McSvm::OVA\s*\)\s*\{\s*trainOVA\s*\(\s*svm\s*,\s*dataset\s*\)\s*;\s*return\s*;\s*\}", rest)
+    if not m3: raise Reject("train: OVA special case not found directly after the two-class block")
+    rest = rest[m3.end():]
+    m4 = re.search(r"switch\s*\(\s*m_McSvmType\s*\)\s*\{", rest)
+    if not m4 or re.search(r"solveMc|return", rest[:m4.start()]): raise Reject("train: switch not found")
+    sw = rest[m4.end() - 1:match_braces(rest, m4.end() - 1)]
+    cases = {}
+    for cm in re.finditer(r"case\s+McSvm::(\w+)\s*:(.*?)break\s*;", sw, flags=re.S):
+        name, cb = cm.group(1), cm.group(2)
+        if name == "OVA":
+            if cb.strip(): raise Reject("train: OVA case of the switch is not empty")
+            continue
+        mm = re.fullmatch(r"\s*sumToZero\s*=\s*(true|false)\s*;\s*simplex\s*=\s*(true|false)\s*;\s*setupMcParameters(\w+)\s*\(\s*nu\s*,\s*M\s*,\s*classes\s*\)\s*;\s*", cb)
+        if not mm: raise Reject(f"train: case {name} not of the form `sumToZero=..; simplex=..; setupMcParametersF(nu,M,classes);`: {cb!r}")
+        if mm.group(3) not in FUNCS: raise Reject(f"train: unknown table family {mm.group(3)}")
+        cases[name] = (mm.group(3), mm.group(1), mm.group(2))
+    if set(cases) | {"OVA"} != set(enum): raise Reject(f"train: switch cases {sorted(cases)} do not cover enum {enum}")
+    after = rest[m4.end() - 1 + len(sw):]
+    if not re.search(r"if\s*\(\s*simplex\s*\)\s*solveMcSimplex\s*\([^;]*;\s*else\s*solveMcBox\s*\(", after):
+        raise Reject("train: `if(simplex) solveMcSimplex(..) else solveMcBox(..)` not found")
+    # --- linear trainer
+    m = re.search(r"void\s+train\s*\(\s*LinearClassifier<InputType>\s*&\s*model\s*,\s*LabeledData<InputType,\s*unsigned int>\s*const&\s*dataset\s*\)\s*\{", text)
+    if not m: raise Reject("LinearCSvmTrainer::train not found")
+    lbody = text[m.end() - 1:match_braces(text, m.end() - 1)]
+    if not re.search(r"if\s*\(\s*classes\s*==\s*2\s*\)\s*\{\s*trainBinary\s*\(\s*model\s*,\s*dataset\s*\)\s*;\s*return\s*;\s*\}\s*switch\s*\(\s*m_McSvmType\s*\)", lbody):
+        raise Reject("LinearCSvmTrainer::train: `if(classes == 2){trainBinary; return;} switch` not found")
+    lcases = {}
+    for cm in re.finditer(r"case\s+McSvm::(\w+)\s*:(.*?)break\s*;", lbody, flags=re.S):
+        name, cb = cm.group(1), re.sub(r"\s+", "", cm.group(2))
+        mm = re.fullmatch(r"trainMc<(QpMcLinear\w+)<InputType>>\(model,dataset,classes\);", cb)
+        if mm: lcases[name] = mm.group(1)
+        elif cb == "trainOVA(model,dataset,classes);": lcases[name] = "OVA"
+        else: raise Reject(f"LinearCSvmTrainer::train: case {name}: {cb}")
+    if set(lcases) != set(enum): raise Reject(f"LinearCSvmTrainer::train: cases {sorted(lcases)} vs enum {enum}")
+    L = ["/-! ### decision logic of `CSvmTrainer::train` and `LinearCSvmTrainer::train` -/",
+         "/-- `enum class McSvm` -/",
+         "inductive McSvm where", "  " + " ".join(f"| {e}" for e in enum), "  deriving DecidableEq, Repr", "",
+         "/-- which solver a training call ends in -/",
+         "inductive TrainPath where",
+         "  | binary                                              -- trainBinary (CSVMProblem, QpSolver)",
+         "  | ova                                                 -- trainOVA: one binary machine per class",
+         "  | mc (family : String) (sumToZero simplex : Bool)     -- solveMcBox / solveMcSimplex with the family's nu, M",
+         "  deriving DecidableEq, Repr", "",
+         "/-- `CSvmTrainer::train(KernelClassifier&, LabeledData const&)` as a function of `numberOfClasses(dataset)` and `m_McSvmType` -/",
+         "def dispatch (classes : Nat) (t : McSvm) : TrainPath :=",
+         "  if classes = 2 then .binary",
+         "  else if t = .OVA then .ova",
+         "  else match t with"]
+    for e in enum:
+        if e == "OVA": L.append("    | .OVA => .ova")
+        else:
+            f, stz, sx = cases[e]
+            L.append(f"    | .{e} => .mc \"{f}\" {stz} {sx}")
+    L += ["",
+          "/-- the dedicated solver `LinearCSvmTrainer::train` ends in: \"QpBoxLinear\" (binary), \"OVA\" (QpBoxLinear per class) or a `QpMcLinear*` class -/",
+          "def linearDispatch (classes : Nat) (t : McSvm) : String :=",
+          "  if classes = 2 then \"QpBoxLinear\"",
+          "  else match t with"]
+    for e in enum:
+        L.append(f"    | .{e} => \"{lcases[e]}\"")
+    L.append("")
+    return L
+
 def main():
     ap = argparse.ArgumentParser(); ap.add_argument("--repo", default="/repo"); ap.add_argument("--out", default=None)
     a = ap.parse_args()
@@ -577,6 +679,7 @@ def main():
             L.append(f"/-! ### setupMcParameters{f} -/")
             L += lines
             names += [b for _, b, _ in tables]
+        L += translate_dispatch(text)
     except Reject as e:
         print(f"mcsvm_tables: REJECTED: {e}", file=sys.stderr)
         sys.exit(3)
